@@ -72,6 +72,7 @@ func (e *Engine) rootAssigns() (rs []assignedRange, os []assignedObj, maps []Val
 			}
 			maps = append(maps, e.evalSpec(ex, se))
 		case strings.HasPrefix(a, "chan("), a == "chans":
+		case strings.HasPrefix(a, "objects("):
 		case strings.HasPrefix(a, "ghost("), strings.HasPrefix(a, "log("):
 		default:
 			panic(unsupported("assigns clause %q", a))
@@ -125,7 +126,7 @@ func (e *Engine) frameFormula(st *State) Term {
 	for _, k := range sortedKeys(st.objHeap) {
 		cur := st.objHeap[k]
 		init := e.ctx.Const(k+"_0", cur.Sort)
-		if cur.S == init.S {
+		if cur.S == init.S || e.rootAssignsObjectsOf(k) {
 			continue
 		}
 		var notRef []string
@@ -215,4 +216,26 @@ func (e *Engine) rootAssignedChans() (cs []Term, any bool) {
 		}
 	}
 	return
+}
+
+// objectsPrefix: `assigns objects(T)`: every object of the package's struct type T may be written.
+func objectsPrefix(pkg, clause string) (string, bool) {
+	clause = strings.TrimSpace(clause)
+	if !strings.HasPrefix(clause, "objects(") {
+		return "", false
+	}
+	name := strings.TrimSuffix(strings.TrimPrefix(clause, "objects("), ")")
+	return "HO_" + sanitize(pkg+"."+strings.TrimSpace(name)) + "_", true
+}
+
+func (e *Engine) rootAssignsObjectsOf(heapKey string) bool {
+	if e.rootC == nil {
+		return false
+	}
+	for _, a := range e.rootC.Assigns {
+		if p, ok := objectsPrefix(e.rootC.Pkg, a); ok && (strings.HasPrefix(heapKey, p) || strings.HasPrefix(heapKey+"_", p)) {
+			return true
+		}
+	}
+	return false
 }
